@@ -77,6 +77,7 @@ type zItem struct {
 
 // Model is the reference model of a whole database.
 type Model struct {
+	DS  bool // ds-package level semantics (E2) instead of transaction level
 	KV  map[string]map[string]kvItem
 	L   map[string]map[string][]string
 	Set map[string]map[string]map[string]bool
@@ -94,6 +95,7 @@ func NewModel() *Model {
 
 func (m *Model) Clone() *Model {
 	c := NewModel()
+	c.DS = m.DS
 	for b, mm := range m.KV {
 		c.KV[b] = map[string]kvItem{}
 		for k, v := range mm {
@@ -602,13 +604,20 @@ func (m *Model) Outcomes(op Op) []Outcome {
 			return one(rErr(), nil)
 		}
 		vs := op.Vs
+		dev := devEmptyMember()
 		do := func(m *Model) {
 			for _, v := range vs {
+				if dev && v == "" && !m.DS {
+					continue // known finding: the empty member cannot be removed (each item is its own record)
+				}
 				delete(m.Set[b][k], string(v))
 			}
 		}
 		if _, ok := m.Set[b][k]; !ok {
 			return []Outcome{{R: rErr()}, {R: rOK(), Do: do}}
+		}
+		if dev && m.DS && len(vs) > 0 && vs[0] == "" {
+			return one(rErr(), nil) // ds level: the whole call is rejected
 		}
 		return one(rOK(), do)
 	case "spop":
@@ -619,6 +628,10 @@ func (m *Model) Outcomes(op Op) []Outcome {
 		var out []Outcome
 		for mem := range s {
 			mem := mem
+			if mem == "" && devEmptyMember() && !m.DS {
+				out = append(out, Outcome{R: rV(q(mem)), Note: "dev-empty-member"})
+				continue
+			}
 			out = append(out, Outcome{R: rV(q(mem)), Do: func(m *Model) { delete(m.Set[b][k], mem) }})
 		}
 		return out
@@ -694,7 +707,9 @@ func (m *Model) Outcomes(op Op) []Outcome {
 		_, ok2 := m.Set[b2][k2]
 		if m.Set[b][k][item] {
 			out := []Outcome{{R: rB(true), Do: func(m *Model) {
-				delete(m.Set[b][k], item)
+				if !(item == "" && devEmptyMember()) {
+					delete(m.Set[b][k], item)
+				}
 				if m.Set[b2] == nil {
 					m.Set[b2] = map[string]map[string]bool{}
 				}
@@ -713,6 +728,9 @@ func (m *Model) Outcomes(op Op) []Outcome {
 			// README is silent; the implementation adds the item to the destination.
 			out = append(out, Outcome{R: rB(true), Note: "smove-absent-adds", Do: func(m *Model) {
 				m.Set[b2][k2][item] = true
+				if !(b == b2 && k == k2) {
+					delete(m.Set[b][k], item)
+				}
 			}})
 		}
 		return out
@@ -783,8 +801,11 @@ func (m *Model) Outcomes(op Op) []Outcome {
 		if it, ok := m.Z[b][k]; ok {
 			return one(rV(zNodeStr(k, it.Score, it.V)), nil)
 		}
-		return one(rErr(), nil)
+		return errOrEmpty()
 	case "zrem":
+		if k == "" && !m.DS && Known("c07-zrem-empty-key") {
+			return one(rErr(), nil) // known finding: ZRem("") is rejected as an empty record key
+		}
 		do := func(m *Model) { delete(m.Z[b], k) }
 		if _, ok := m.Z[b]; !ok {
 			return []Outcome{{R: rErr()}, {R: rOK(), Do: do}}
@@ -831,3 +852,7 @@ func isWrite(k string) bool {
 	}
 	return false
 }
+
+// devEmptyMember: named model deviation for the recorded finding "the empty
+// member can be added to a set but never removed" (KNOWN_FINDINGS.txt).
+func devEmptyMember() bool { return Known("c06-empty-member-unremovable") }
